@@ -3152,7 +3152,16 @@ pub fn matrix_column_elements(&mut self, column_elements: &[&MatrixColumn]) -> S
     if self.html {
       format!("<span class=\"mech-string\">\"{}\"</span>", node.text.to_string())
     } else {
-      format!("\"{}\"", node.text.to_string())
+      // write the characters the parser unescaped back as escapes
+      let mut escaped = String::new();
+      for c in node.text.to_string().chars() {
+        match c {
+          '"' => escaped.push_str("\\\""),
+          '\\' => escaped.push_str("\\\\"),
+          _ => escaped.push(c),
+        }
+      }
+      format!("\"{}\"", escaped)
     }
   }
 
